@@ -290,6 +290,61 @@ from vf.engine.values import Builtin, FuncVal, Opaque  # noqa: E402
 from vf.engine import arrays as A_  # noqa: E402
 
 
+def NQ(*us):
+    """value of the quadrature as a function of what varies between calls: the finite limits (in the order of the
+    ranges) followed by the extra arguments; the integrand and the infinite limits are pinned by the integrand clauses"""
+    return T.uf(f"quad_value{len(us)}", *(["real"] * (len(us) + 1)))(*[T.zr(u) for u in us])
+
+
+def quad_value(itp, ranges, args):
+    us = []
+    try:
+        items = itp.iterate_concrete(ranges) if ranges is not None else []
+        for r in items:
+            if isinstance(r, tuple) and len(r) == 2 and is_scalar(r[1]) and not isinstance(r[1], T.Inf) and not isinstance(term_of(r[1]), T.Inf):
+                us.append(term_of(r[1]))
+        for e in (itp.iterate_concrete(args) if args is not None else []):
+            if is_scalar(e):
+                us.append(term_of(e))
+    except Exception:
+        return itp.cx.fresh("integral", "real")
+    if not us:
+        return itp.cx.fresh("integral", "real")
+    return NQ(*us)
+
+
+def replay_rows(method, co, dim):
+    """native form of `value_is_own_quadrature`: the quadrature is replaced by a stub that returns a known function of
+    the finite limits / extra arguments, so entry r of the result must be that function of evaluation point r
+    (rows with a zero coordinate included)"""
+    import numpy as np
+    import virocon.jointmodels as jm
+    m = native_model(co)
+    real = jm.integrate.nquad
+
+    def stub(func, ranges, args=(), **kw):
+        fin = [float(hi) for lo, hi in ranges if np.isfinite(hi)]
+        return 0.5 + sum((j + 1) * v for j, v in enumerate(fin)) + 10.0 * sum(float(a) for a in args), 0.0
+    nd = len(co)
+    rng = np.random.default_rng(8)
+    try:
+        jm.integrate.nquad = stub
+        if method == "cdf":
+            x = rng.uniform(0.2, 3.0, size=(5, nd))
+            x[1, 0] = 0.0
+            x[3, nd - 1] = 0.0
+            got = np.asarray(m.cdf(x), dtype=float)
+            want = np.array([0.5 + sum((j + 1) * x[r, j] for j in range(nd)) for r in range(len(x))])
+        else:
+            x = np.array([1.3, 0.0, 2.1, 0.4, 0.0])
+            got = np.asarray(getattr(m, method)(x.copy(), dim), dtype=float)
+            want = 0.5 + (10.0 * x if method == "marginal_pdf" else x)
+    finally:
+        jm.integrate.nquad = real
+    bad = got.shape != want.shape or not np.allclose(got, want, rtol=1e-12, atol=0)
+    return {"confirmed": bool(bad), "detail": f"{method} with the quadrature stubbed: got {got.tolist()} but the values computed for the rows' own points are {want.tolist()}"}
+
+
 def install_nquad(itp, rec):
     def nquad(itp_, a, k):
         func = a[0]
@@ -297,7 +352,8 @@ def install_nquad(itp, rec):
         args = k.get("args", a[2] if len(a) > 2 else None)
         rec.append(dict(func=func, ranges=ranges, args=args))
         itp_.cx.trusted.add("scipy.integrate.nquad(f, ranges, args) = iterated integral of f over ranges[j] for its j-th positional argument, extra args appended; returns (value, error)")
-        v = Sym(itp_.cx.sym(f"integral{len(rec)}", "real"))
+        v = Sym(quad_value(itp_, ranges, args))
+        rec[-1]["value"] = v
         return (v, Sym(itp_.cx.sym(f"abserr{len(rec)}", "real")))
     itp.lib.table["scipy.integrate.nquad"] = Builtin("scipy.integrate.nquad", nquad)
 
@@ -331,8 +387,43 @@ class MargBase(Contract):
             if me.nquad and not itp_.scratch.get("iteration_checked"):
                 itp_.scratch["iteration_checked"] = True
                 me.check_iteration(itp_, case, env)
-            return [("trivial", True)]
+            res = me.result_array(env)
+            if res is None or kc is None:
+                return [("trivial", True)]
+            cx = itp_.cx
+            r0 = cx.sym("r0", "int")
+            # arbitrary but fixed row r0: once done it holds the quadrature value of ITS OWN evaluation point
+            return [("rows_done", T.implies(T.land(T.ge(r0, 0), T.lt(r0, kc)), T.eq(res.get((r0,)), me.expected(r0))))]
         return inv
+
+    result_names = ()
+
+    def result_array(self, env):
+        """the output vector the loop fills: by its usual name, else the only 1-D array allocated by the function that
+        has one cell per evaluation point"""
+        from vf.engine.values import UNDEF
+        for nm in self.result_names:
+            v = env.lookup(nm)
+            if isinstance(v, SArr) and v.ndim == 1 and v.buf is not self.x.buf:
+                return v
+        cands = [v for v in env.vars.values() if isinstance(v, SArr) and v.ndim == 1 and v.buf is not self.x.buf and v.buf.owner == "call"
+                 and T.same(v.shape[0], self.x.shape[0])]
+        return cands[0] if len(cands) == 1 else None
+
+    def expected(self, r):
+        return NQ(self.x.get((r,)))
+
+    def replay(self, case, ob):
+        return replay_rows(self.target.split(".")[-1], case["co"], case.get("dim"))
+
+    def check_result(self, itp, out):
+        cx = itp.cx
+        if out.outcome != "return" or not isinstance(out.value, SArr) or out.value.ndim != 1:
+            return
+        r = cx.sym("r0", "int")  # the arbitrary fixed row of the loop invariant
+        cx.assume(T.land(T.ge(r, 0), T.lt(r, self.m)))
+        cx.oblige("post.value_is_own_quadrature", T.eq(out.value.get((r,)), self.expected(r)), "post",
+                  "entry r of the result is the quadrature value computed for evaluation point r (no row skipped, short-cut or mixed up)")
 
     def check_iteration(self, itp, case, env):
         pass
@@ -364,6 +455,7 @@ class MargBase(Contract):
 class MargPdf(MargBase):
     """unconditional variable: its own pdf; conditional variable: for every x_i the joint pdf integrated over
     (0, inf) in EVERY other variable with variable `dim` held at x_i"""
+    result_names = ("f",)
 
     def setup(self, itp, case):
         super().setup(itp, case)
@@ -385,6 +477,7 @@ class MargPdf(MargBase):
             cx.oblige("post.no_quadrature", not self.nquad, "post")
             return
         cx.oblige("post.returns_vector", out.outcome == "return", "post")
+        self.check_result(itp, out)
 
     def check_iteration(self, itp, case, env):
         cx = itp.cx
@@ -421,6 +514,7 @@ class MargPdf(MargBase):
 @contract(GHM + ".marginal_cdf", ["C06"], _marg_cases(), name="ghm.marginal_cdf")
 class MargCdf(MargBase):
     """conditional variable: joint pdf integrated over (0, inf) in every other variable and over (0, x_i) in `dim`"""
+    result_names = ("F",)
 
     def setup(self, itp, case):
         super().setup(itp, case)
@@ -438,6 +532,7 @@ class MargCdf(MargBase):
             cx.oblige("post.marginal_unconditional", T.eq(out.value.get((k,)), CDF(dim, self.x.get((k,)))) if isinstance(out.value, SArr) else False, "post")
             return
         cx.oblige("post.returns_vector", out.outcome == "return", "post")
+        self.check_result(itp, out)
 
     def check_iteration(self, itp, case, env):
         cx = itp.cx
@@ -502,6 +597,12 @@ class GhmCdf(MargBase):
             return
         cx.oblige("frame.cdf.x", self.x.buf.writes == 0, "frame", "the caller's array is not written")
         cx.oblige("post.returns_vector", out.outcome == "return" and isinstance(out.value, SArr) and out.value.ndim == 1, "post")
+        self.check_result(itp, out)
+
+    result_names = ("p",)
+
+    def expected(self, r):
+        return NQ(*[self.x.get((r, j)) for j in range(self.x.shape[1])])
 
     def check_iteration(self, itp, case, env):
         cx = itp.cx
